@@ -38,8 +38,8 @@ var textAlts = []string{"with space", `comma, and "quote"`, "Ã¼nÃ¯-Ã§Ã¸dÃ© æ—¥æœ
 var timeAlts = []string{"00:00:00", "4:05:06", "25:10:05", "47:59:59"}
 var decimalAlts = []string{"0", "1.5", "-73.25", " 2.5 ", "1e-3"}
 var intAlts = []string{"0", "-5", "2147483647"}
-var dateAlts = []string{"20240310", "20231105", "19700101", "20240229", "20241231", "20241006", "20240407"}
-var zoneAlts = []string{"Europe/London", "Asia/Kolkata", "UTC", "Mars/Phobos", "Australia/Sydney", "Australia/Lord_Howe", "America/New_York"}
+var dateAlts = []string{"20240310", "20231105", "19700101", "20240229", "20241231", "20241006", "20240407", "99991231", "00010101"}
+var zoneAlts = []string{"Europe/London", "Asia/Kolkata", "UTC", "Mars/Phobos", "Australia/Sydney", "Australia/Lord_Howe", "Japan", "EST5EDT", "America/New_York"}
 var colorAlts = []string{"FFFFFF", "000000", "ff00aa"}
 
 var (
@@ -128,6 +128,13 @@ func (g *staticGen) cell(file string, row int, sp colSpec) string {
 	g.salt++
 	u := g.salt // unique per cell
 	alt := func(base string, alts []string) string {
+		if row > 0 {
+			switch sp.Kind {
+			case kText, kTimeOfDay, kDecimalOpt, kDecimalReq, kColor:
+				// "the same value as the row above" (resolved when the row is complete)
+				alts = append(append([]string{}, alts...), prevSentinel)
+			}
+		}
 		k := g.choose(label, len(alts)+1)
 		if k == 0 {
 			return base
@@ -171,7 +178,7 @@ func (g *staticGen) cell(file string, row int, sp colSpec) string {
 		return alt(fmt.Sprintf("2024%02d%02d", 1+u%12, 1+u%28), dateAlts)
 	case kZone:
 		if row == 0 {
-			return alt("America/New_York", zoneAlts[:6])
+			return alt("America/New_York", zoneAlts[:8])
 		}
 		return alt(zoneAlts[(row-1)%len(zoneAlts)], zoneAlts[1:])
 	case kBool:
@@ -182,6 +189,9 @@ func (g *staticGen) cell(file string, row int, sp colSpec) string {
 	harnessBug("cell kind %d", sp.Kind)
 	return ""
 }
+
+// prevSentinel stands for "the value of this column in the previous row".
+const prevSentinel = "\x00=prev"
 
 type staticCounts struct {
 	agencies, routes, stops, transfers, calendars, calendarDates, shapes, shapePoints, trips, frequencies, stopTimes int
@@ -247,6 +257,9 @@ func genStaticFeedN(c *Ctx, vary bool, n staticCounts, stTrips []int, shapeOfRow
 					row[i] = v
 				} else {
 					row[i] = g.cell(file, r, sp)
+					if row[i] == prevSentinel {
+						row[i] = t.Rows[r-1][i]
+					}
 				}
 			}
 			t.Rows = append(t.Rows, row)
